@@ -461,3 +461,118 @@ theorem loginv_buildFrom (s : Store K V) (ver : Nat) (hs : List (Commit K V)) (h
 theorem loginv_empty : LogInv (emptyStore : Store K V) := ⟨List.Pairwise.nil, by intro o ho; cases ho⟩
 
 end Iavl.V2
+
+namespace Iavl.V2
+
+/-- `SaveVersion`'s checkpoint rule (tree.go): version 1, or `interval` versions after the last checkpoint
+    (the memory-pressure trigger and an explicit `SetShouldCheckpoint` only add checkpoints) -/
+def ckptDue (interval : Nat) (ckpts : List Nat) (ver : Nat) : Bool :=
+  ver == 1 || (decide (0 < interval) && match ckpts.getLast? with
+    | none => false
+    | some last => decide (interval ≤ ver - last))
+
+/-- the checkpoint list after committing versions 1..n under the rule; `extra v` = a checkpoint was forced at v -/
+def autoCkpts (interval : Nat) (extra : Nat → Bool) : Nat → List Nat
+  | 0 => []
+  | n + 1 =>
+    let prev := autoCkpts interval extra n
+    if ckptDue interval prev (n + 1) || extra (n + 1) then prev ++ [n + 1] else prev
+
+theorem autoCkpts_mem_le (interval : Nat) (extra : Nat → Bool) (n : Nat) : ∀ c ∈ autoCkpts interval extra n, 1 ≤ c ∧ c ≤ n := by
+  induction n with
+  | zero => intro c hc; cases hc
+  | succ n ih =>
+    intro c hc
+    simp only [autoCkpts] at hc
+    split at hc
+    · rcases List.mem_append.mp hc with h | h
+      · have := ih c h; omega
+      · simp at h; omega
+    · have := ih c hc; omega
+
+theorem autoCkpts_sorted (interval : Nat) (extra : Nat → Bool) (n : Nat) : (autoCkpts interval extra n).Pairwise (· < ·) := by
+  induction n with
+  | zero => exact List.Pairwise.nil
+  | succ n ih =>
+    simp only [autoCkpts]
+    split
+    · rw [List.pairwise_append]
+      refine ⟨ih, by simp, ?_⟩
+      intro a ha b hb
+      have : b = n + 1 := by simpa using hb
+      have := autoCkpts_mem_le interval extra n a ha
+      omega
+    · exact ih
+
+/-- **every committed version has a checkpoint at most `interval - 1` versions below it**: the replay of a
+    `LoadVersion` never covers `interval` versions or more, and `FindPrevious` never answers -1 for a committed
+    version -/
+theorem checkpoint_within_interval (interval : Nat) (hi : 0 < interval) (extra : Nat → Bool) (n v : Nat)
+    (hv1 : 1 ≤ v) (hvn : v ≤ n) :
+    ∃ c, findPrevious (autoCkpts interval extra n) v = some c ∧ c ≤ v ∧ v - c < interval := by
+  -- the last checkpoint after m commits is within `interval` of m
+  have hlast : ∀ m, 1 ≤ m → ∃ last, (autoCkpts interval extra m).getLast? = some last ∧ last ≤ m ∧ m - last < interval := by
+    intro m
+    induction m with
+    | zero => intro h; omega
+    | succ m ih =>
+      intro _
+      simp only [autoCkpts]
+      by_cases hm : m = 0
+      · subst hm
+        simp [autoCkpts, ckptDue]
+        exact hi
+      · obtain ⟨last, hl, hle, hlt⟩ := ih (by omega)
+        by_cases hdue : (ckptDue interval (autoCkpts interval extra m) (m + 1) || extra (m + 1)) = true
+        · simp only [hdue, if_true]
+          exact ⟨m + 1, by simp, Nat.le_refl _, by omega⟩
+        · simp only [hdue, Bool.false_eq_true, if_false]
+          refine ⟨last, hl, by omega, ?_⟩
+          have hnd : ckptDue interval (autoCkpts interval extra m) (m + 1) = false := by
+            cases h : ckptDue interval (autoCkpts interval extra m) (m + 1) <;> simp_all
+          simp only [ckptDue, hl, Bool.or_eq_false_iff, Bool.and_eq_false_iff, decide_eq_false_iff_not] at hnd
+          rcases hnd.2 with h | h
+          · omega
+          · omega
+  -- checkpoints of the first v commits are a prefix of those of n commits, and later ones are above v
+  have hmono : ∀ d, ∀ c, c ∈ autoCkpts interval extra (v + d) → c ≤ v → c ∈ autoCkpts interval extra v := by
+    intro d
+    induction d with
+    | zero => intro c hc _; exact hc
+    | succ d ih =>
+      intro c hc hcv
+      have hadd : v + (d + 1) = (v + d) + 1 := by omega
+      rw [hadd] at hc
+      simp only [autoCkpts] at hc
+      split at hc
+      · rcases List.mem_append.mp hc with h | h
+        · exact ih c h hcv
+        · simp at h; omega
+      · exact ih c hc hcv
+  have hsub : ∀ d, ∀ c, c ∈ autoCkpts interval extra v → c ∈ autoCkpts interval extra (v + d) := by
+    intro d
+    induction d with
+    | zero => intro c hc; exact hc
+    | succ d ih =>
+      intro c hc
+      have hadd : v + (d + 1) = (v + d) + 1 := by omega
+      rw [hadd]
+      simp only [autoCkpts]
+      split
+      · exact List.mem_append_left _ (ih c hc)
+      · exact ih c hc
+  obtain ⟨d, rfl⟩ : ∃ d, n = v + d := ⟨n - v, by omega⟩
+  obtain ⟨last, hl, hle, hlt⟩ := hlast v hv1
+  have hmem : last ∈ autoCkpts interval extra v := List.mem_of_getLast? hl
+  refine ⟨last, ?_, hle, hlt⟩
+  apply (findPrevious_eq_some_iff _ (autoCkpts_sorted interval extra (v + d)) v last).mpr
+  refine ⟨hsub d last hmem, hle, ?_⟩
+  intro c hc hcv
+  have hcv' := hmono d c hc hcv
+  -- `last` is the greatest element of the sorted list of the first v commits
+  have hs := autoCkpts_sorted interval extra v
+  obtain ⟨j, hj, rfl⟩ := List.mem_iff_getElem.mp hcv'
+  rw [List.getLast?_eq_getElem?] at hl
+  exact sorted_get_le _ hs j _ _ _ (by omega) (List.getElem?_eq_getElem hj) hl
+
+end Iavl.V2
